@@ -267,9 +267,19 @@ func decodeValue(dec valueDecoder, param string, sm *openapi3.SerializationMetho
 		var err error
 		for _, sr := range schema.Value.AllOf {
 			var f bool
-			value, f, err = decodeValue(dec, param, sm, sr, required)
+			var v any
+			v, f, err = decodeValue(dec, param, sm, sr, required)
 			found = found || f
-			if value == nil || err != nil {
+			if err != nil {
+				value = nil
+				break
+			}
+			if v == nil && value != nil && sr.Value != nil && sr.Value.Type == nil {
+				// a member that only constrains (no type, nothing to decode) keeps the value decoded so far
+				continue
+			}
+			value = v
+			if value == nil {
 				break
 			}
 		}
